@@ -189,6 +189,114 @@ func simpleLocal(a *ssa.Alloc) bool {
 	return true
 }
 
+// privateBox: a variable that lives in a heap box only because closures of the
+// same function capture it, where those closures are merely called or deferred
+// by that function (never stored, passed or returned) and use the variable only
+// by loading and storing it. No callee can reach such a box, so a callee's
+// `modifies everything` does not include it.
+func privateBox(a *ssa.Alloc) bool {
+	t := deref(a.Type())
+	if isStructType(t) || isArrayType(t) {
+		return false
+	}
+	loadStoreOnly := func(v ssa.Value, refs []ssa.Instruction) bool {
+		for _, r := range refs {
+			switch u := r.(type) {
+			case *ssa.Store:
+				if u.Addr != v {
+					return false
+				}
+			case *ssa.UnOp:
+				if u.Op != token.MUL {
+					return false
+				}
+			case *ssa.DebugRef, *ssa.MakeClosure:
+			default:
+				return false
+			}
+		}
+		return true
+	}
+	if !loadStoreOnly(a, *a.Referrers()) {
+		return false
+	}
+	calledOnly := func(v ssa.Value) bool {
+		for _, r := range *v.Referrers() {
+			switch u := r.(type) {
+			case *ssa.Call:
+				if u.Call.Value != v {
+					return false
+				}
+				for _, x := range u.Call.Args {
+					if x == v {
+						return false
+					}
+				}
+			case *ssa.Defer:
+				if u.Call.Value != v {
+					return false
+				}
+				for _, x := range u.Call.Args {
+					if x == v {
+						return false
+					}
+				}
+			case *ssa.DebugRef:
+			default:
+				return false
+			}
+		}
+		return true
+	}
+	for _, r := range *a.Referrers() {
+		mc, ok := r.(*ssa.MakeClosure)
+		if !ok {
+			continue
+		}
+		// inside the closure: the free variable is only loaded and stored
+		fn := mc.Fn.(*ssa.Function)
+		for i, b := range mc.Bindings {
+			if b == a {
+				if !loadStoreOnly(fn.FreeVars[i], *fn.FreeVars[i].Referrers()) {
+					return false
+				}
+				for _, fr := range *fn.FreeVars[i].Referrers() {
+					if _, nested := fr.(*ssa.MakeClosure); nested {
+						return false
+					}
+				}
+			}
+		}
+		// the closure value: called/deferred directly, or parked in a plain local that is only called/deferred
+		for _, mr := range *mc.Referrers() {
+			switch u := mr.(type) {
+			case *ssa.Store:
+				l, ok := u.Addr.(*ssa.Alloc)
+				if !ok || u.Val != mc || !simpleLocal(l) {
+					return false
+				}
+				for _, lr := range *l.Referrers() {
+					if ld, ok := lr.(*ssa.UnOp); ok && !calledOnly(ld) {
+						return false
+					}
+				}
+			case *ssa.Call:
+				if u.Call.Value != mc {
+					return false
+				}
+			case *ssa.Defer:
+				if u.Call.Value != mc {
+					return false
+				}
+			case *ssa.DebugRef:
+			default:
+				return false
+			}
+		}
+	}
+	return true
+}
+
 func (c *Ctx) doAlloc(fr *Frame, st *State, a *ssa.Alloc) {
 	t := deref(a.Type())
 	if a.Comment == "defer$stack" || t.String() == "deferStack" {
@@ -213,6 +321,9 @@ func (c *Ctx) doAlloc(fr *Frame, st *State, a *ssa.Alloc) {
 		r := c.allocRef(st, localName(a))
 		c.storeBox(st, t, r, zeroVal(t))
 		fr.env[a] = Val{Typ: a.Type(), L: []T{r}}
+		if privateBox(a) {
+			st.private = append(st.private[:len(st.private):len(st.private)], privBox{typ: t, ref: r})
+		}
 	}
 }
 
@@ -269,7 +380,10 @@ func (c *Ctx) doUnOp(fr *Frame, st *State, reach T, t *ssa.UnOp) {
 		v.Typ = t.Type()
 		if p.kind != pLocal {
 			v = c.nameVal(vname(fr, t), v)
-			c.sc.assume(c.valFacts(v, st.top))
+			// only under reach: on a path that does not execute this load the
+			// heap may hold values no execution produces (e.g. a slice header
+			// written by a slicing that would have panicked)
+			c.sc.assume(imp(reach, c.valFacts(v, st.top)))
 		}
 		fr.env[t] = v
 	case token.NOT:
@@ -518,12 +632,12 @@ func (c *Ctx) doLookup(fr *Frame, st *State, reach T, t *ssa.Lookup) {
 			r.L = append(r.L, out.L...)
 			r.L = append(r.L, has)
 			r = c.nameVal(vname(fr, t), r)
-			c.sc.assume(c.valFacts(Val{Typ: mt.Elem(), L: r.L[:len(out.L)]}, st.top))
+			c.sc.assume(imp(reach, c.valFacts(Val{Typ: mt.Elem(), L: r.L[:len(out.L)]}, st.top)))
 			fr.env[t] = r
 			return
 		}
 		out = c.nameVal(vname(fr, t), out)
-		c.sc.assume(c.valFacts(out, st.top))
+		c.sc.assume(imp(reach, c.valFacts(out, st.top)))
 		fr.env[t] = out
 		return
 	}
@@ -629,7 +743,7 @@ func (c *Ctx) doNext(fr *Frame, st *State, reach T, t *ssa.Next) {
 	st.iters[k] = c.sc.def("visited", c.iterSort[k], sto(vis, key, "true"))
 	val := c.mapGet(st, mt, m, key)
 	val = c.nameVal("next.v", val)
-	c.sc.assume(c.valFacts(val, st.top))
+	c.sc.assume(imp(reach, c.valFacts(val, st.top)))
 	out := Val{Typ: t.Type(), L: []T{ok, key}}
 	out.L = append(out.L, val.L...)
 	// the tuple type of Next may mark unused components invalid; keep leaves aligned
